@@ -9,6 +9,7 @@ import (
 	"fmt"
 	"sort"
 	"strings"
+	"time"
 
 	"github.com/free5gc/go-upf/internal/pfcp"
 )
@@ -437,8 +438,100 @@ func (s *Sim) checkGlobal(ctx *StepCtx) {
 	}
 }
 
+// checkProgress: C18 — once nothing more is injected, within ten simulated minutes the
+// UPF has answered what it was sent and answers a fresh Heartbeat.
+func (s *Sim) checkProgress(why string) {
+	if !s.oracleOn("C18") || s.stopped1 {
+		return
+	}
+	s.tearing = true // no more injected latency: faults have stopped
+	s.armed = nil
+	src := udpAddr("10.77.0.7:8805")
+	answered := func(wait time.Duration) bool {
+		s.hbSeq++
+		pm := &PMsg{Type: mtHeartbeatReq, Seq: 0x700000 + s.hbSeq&0xfffff, IEs: []TLV{{T: ieRecoveryTS, V: u32b(3900000000)}}}
+		from := s.n4.outLen()
+		s.n4.inject(pm.Marshal(), src)
+		s.mstepLite(func() { s.advance(wait) })
+		for _, o := range s.n4.outSince(from) {
+			if o.Dst == src.String() && len(o.B) >= 8 && o.B[1] == mtHeartbeatRsp {
+				return true
+			}
+		}
+		return false
+	}
+	// a prompt answer settles it; otherwise give the UPF ten simulated minutes
+	if answered(2*time.Second) || answered(10*time.Minute) {
+		s.tearing = false
+		s.probe("burst.done", 1)
+		return
+	}
+	dump := bubbleDump()
+	s.violate("C18", "progress", "wedge:"+wedgeSignature(dump),
+		"%s: eleven simulated minutes after the last injected event the UPF does not answer a Heartbeat Request; goroutines:\n%s", why, dump)
+}
+
+// wedgeSignature: where the event loop stands, and which report producers are stuck
+// handing a report to the server (named by the producer's own function).
+func wedgeSignature(dump string) string {
+	set := map[string]bool{}
+	upfFrames := func(g string) []string {
+		var fs []string
+		for _, l := range strings.Split(g, "\n")[1:] {
+			if strings.HasPrefix(l, "\t") || strings.HasPrefix(l, "created by") {
+				continue
+			}
+			if i := strings.LastIndex(l, "("); i > 0 {
+				l = l[:i]
+			}
+			if (strings.Contains(l, "free5gc/go-upf/internal/") || strings.Contains(l, "khirono/go-nl.")) && !strings.Contains(l, "/verifsim.") && !strings.Contains(l, "/simhook.") {
+				fs = append(fs, l[strings.LastIndex(l, "/")+1:])
+			}
+		}
+		return fs
+	}
+	for _, g := range strings.Split(dump, "\n\n") {
+		fs := upfFrames(g)
+		if len(fs) == 0 {
+			continue
+		}
+		switch {
+		case strings.Contains(g, "pfcp.(*PfcpServer).main("):
+			set["loop@"+fs[0]] = true
+		case strings.HasPrefix(fs[0], "pfcp.(*PfcpServer).Notify") && len(fs) > 1:
+			set[fs[1]+">"+strings.TrimPrefix(fs[0], "pfcp.(*PfcpServer).")] = true
+		}
+	}
+	// name the cycle: where the loop waits decides which stuck producer closes it (any
+	// other stuck producer is collateral)
+	perioStuck := set["perio.(*Server).Serve>NotifySessReport"]
+	muxStuck := set["buffnetlink.(*Server).ServeMsg>NotifySessReport"]
+	switch {
+	case (set["loop@perio.(*Server).AddPeriodReportTimer"] || set["loop@perio.(*Server).DelPeriodReportTimer"]) && perioStuck:
+		return "loop>perio-event-queue|perio>report-queue"
+	case set["loop@go-nl.(*Client).Do"] && muxStuck:
+		return "loop>netlink-reply|mux>report-queue"
+	}
+	var fs []string
+	for f := range set {
+		fs = append(fs, f)
+	}
+	sort.Strings(fs)
+	return strings.Join(fs, "|")
+}
+
+func (s *Sim) mstepLite(f func()) {
+	s.stepNo++
+	s.bump()
+	f()
+}
+
 func (s *Sim) finalChecks() {
 	if s.res.Violation != nil || s.res.Harness != "" || s.upfDead || s.stopped1 {
+		return
+	}
+	if s.cfg.Profile == "C18" {
+		s.checkProgress("end of run")
 		return
 	}
 	m := s.model
